@@ -652,6 +652,19 @@ class Resolver:
                     t = self._ann_to_type(n.annotation)
                     if t:
                         return t
+            # re-assigned local (accumulator): type of its first plain assignment
+            for n in walk_no_nested(self.fn.node):
+                if (
+                    isinstance(n, ast.Assign)
+                    and len(n.targets) == 1
+                    and isinstance(n.targets[0], ast.Name)
+                    and n.targets[0].id == expr.id
+                    and not (isinstance(n.value, ast.Name) and n.value.id == expr.id)
+                ):
+                    t = self.type_of(n.value, depth - 1)
+                    if t:
+                        return t
+                    break
             if self.fn.parent is not None:
                 return Resolver(self.prog, self.fn.parent).type_of(expr, depth - 1)
             return None
